@@ -86,22 +86,22 @@ CHECKS.append(check(
 
 CHECKS.append(check(
     "C01", "wsim", "exploration",
-    "One run = one Wuffs program (hand corpus, or a seeded near-miss generator: a proof obligation that holds only through a fact - if-guard, mask/min, loop condition, narrowing guard, derived range of a modular operator on a refined operand, slice-length fact - with or without a statement in between that should kill the fact: assignment, +=, x = x + 1, impure call, field store behind a pure call, slice re-assignment) handed to the working tree's lang/token+parse+check. A rejected program is counted and dropped. An accepted one is executed by a reference interpreter (ideal integers, written from the language documentation) under a seeded history of public calls with drawn arguments (extremes and refinement edges favoured) on one receiver whose state persists across calls; a monitor checks at every evaluated node that the value lies in the range the compiler derived for it (MBounds) and at every index, slice, shift, division, non-modular operation, conversion, assignment, argument and return the actual safety condition against actual lengths and types.",
-    "Sampling of programs x call histories. The interpreter shares the front end with the compiler (a mis-parse or mis-typed annotation is common-mode and invisible) and covers a stated subset: integers and refinements, arrays, slices of u8..u64, struct fields, if/else, while with break/continue, private/public method calls, compound and modular/saturating assignment, as-conversions, min/max/length; anything outside it (coroutines, I/O built-ins, iterate, SIMD, tables) makes the run 'unsupported' (counted, never a verdict) - so the suspension-related clauses of C01 are reached only through std/ under engine C (C03). Every acceptance hole found was re-confirmed on the C the working tree generates, under UBSan, before being treated as genuine (findings/compiler-acceptance-holes-*). The simulated dimension is the call history on persistent receiver state; the program axis is plain seeded generation.",
+    "One run = one Wuffs program (hand corpus, or a seeded near-miss generator: a proof obligation that holds only through a fact - if-guard, mask/min, loop condition, narrowing guard, derived range of a modular operator on a refined operand, slice-length fact - with or without a statement in between that should kill the fact: assignment, +=, x = x + 1, impure call, field store behind a pure call, slice re-assignment; plus an operator-stress generator over four integer widths, a slice generator with constant and non-constant bounds, and a coroutine generator with I/O in which a suspension point is - or is not - placed between a guard on a local / an argument / a field / src.length() and its use) handed to the working tree's lang/token+parse+check. A rejected program is counted and dropped. An accepted one is executed by a reference interpreter (ideal integers, written from the language documentation) under a seeded history of public calls with drawn arguments (extremes and refinement edges favoured) on one receiver whose state persists across calls; coroutines are driven by a simulated caller that decides from the tape how many source bytes arrive before each (re)entry, when the source is closed, how much destination space exists and when it is drained, which scalar arguments change across a resumption and which non-coroutine public methods run while the coroutine is suspended; a monitor checks at every evaluated node that the value lies in the range the compiler derived for it (MBounds) and at every index, slice, shift, division, non-modular operation, conversion, assignment, argument and return the actual safety condition against actual lengths and types.",
+    "Sampling of programs x call histories. The interpreter shares the front end with the compiler (a mis-parse or mis-typed annotation is common-mode and invisible) and covers a stated subset: integers and refinements, arrays, slices of u8..u64, struct fields, if/else, while with break/continue, private/public method calls, compound and modular/saturating assignment, as-conversions, min/max/length; coroutines with yield, nested `?` calls, error propagation and the io_reader read/peek/skip and io_writer write_u8 built-ins; anything outside it (`=?`, io_bind/io_limit, iterate, choose, SIMD, tables, token I/O) makes the run 'unsupported' (counted, never a verdict). Every acceptance hole found was re-confirmed on the C the working tree generates, under UBSan, before being treated as genuine (findings/compiler-acceptance-holes-*). The simulated dimension is the call history on persistent receiver state; the program axis is plain seeded generation.",
     "deterministic simulation: seeded public-call histories on persistent receiver state executed by a reference interpreter (model) of programs the real checker accepted, with a derived-range/safety monitor; seeded near-miss program generation",
     "DESIGN.md section 3 D, section 5 C01, Appendix E"))
 
 CHECKS.append(check(
     "C02", "wsim", "exploration",
-    "The working tree's checker is built with one observation call injected at check time (go build -overlay; /repo untouched) at the head of bcheckBlock's statement loop and one at its end, reporting the fact list held before every statement and at the end of every block. One run = one program (hand corpus; the C01 near-miss generator; a free-form control-flow generator over =, +=, -=, other compound operators with variable and constant operands, impure calls, field stores, if / else-if / else, labelled while loops with inv and post conditions, break, continue, asserts; an axiom-instance generator that reads lang/check/axioms.md from the working tree and establishes each axiom's premises exactly, or weakened - operator relaxed, operands swapped, premise dropped) given to the checker; an accepted program is executed by the reference interpreter under a seeded history of public calls on a persistent receiver, and each time execution reaches a statement or leaves a block normally - every loop iteration, every call - every recorded fact (if/while conditions, assignment equalities and bounds, rewritten facts, proven asserts and axiom conclusions, reconciled if/else facts, loop inv/post) is evaluated in ideal integers on the concrete state and must be true.",
-    "Sampling of programs x call histories. All 20 axioms are reached (per-axiom and per-variant acceptance counts are in the evidence). Facts the evaluator cannot interpret are counted as skipped, never reported (observed: only the step budget). The interpreter shares the front end with the compiler (common-mode). Coroutines and I/O built-ins are outside the interpreter's subset: fact invalidation at suspension points (updateFactsForSuspension), io_bind/io_limit and iterate are NOT reached by this check. If bcheckBlock no longer has the shape the injected observer needs, the check exits 2 (no verdict). Own probes (facts kept by only one if/else branch; impure call keeps receiver facts; one axiom premise weakened in data.go; loop invariant not re-proven on the implicit continue; wrong sign in the -= rewrite) are each caught by the quick tier.",
+    "The working tree's checker is built with one observation call injected at check time (go build -overlay; /repo untouched) at the head of bcheckBlock's statement loop and one at its end, reporting the fact list held before every statement and at the end of every block. One run = one program (hand corpus; the C01 near-miss generator; a free-form control-flow generator over =, +=, -=, other compound operators with variable and constant operands, impure calls, field stores, if / else-if / else, labelled while loops with inv and post conditions, break, continue, while-true loops left only by (deep) breaks, asserts; the operator-stress, slice and coroutine generators of C01; an axiom-instance generator that reads lang/check/axioms.md from the working tree and establishes each axiom's premises exactly, or weakened - operator relaxed, operands swapped, premise dropped) given to the checker; an accepted program is executed by the reference interpreter under a seeded history of public calls on a persistent receiver, and each time execution reaches a statement or leaves a block normally - every loop iteration, every call - every recorded fact (if/while conditions, assignment equalities and bounds, rewritten facts, proven asserts and axiom conclusions, reconciled if/else facts, loop inv/post) is evaluated in ideal integers on the concrete state and must be true.",
+    "Sampling of programs x call histories. All 20 axioms are reached (per-axiom and per-variant acceptance counts are in the evidence). Facts the evaluator cannot interpret are counted as skipped, never reported (observed: only the step budget). The interpreter shares the front end with the compiler (common-mode). Fact invalidation at suspension points IS reached (coroutines run under a simulated caller that changes arguments and receiver state across resumptions; own probes: suspension keeping facts about args, and yield keeping facts, are caught; keeping facts about `this` is an equivalent mutant because `this` is pointer-typed); io_bind/io_limit, `=?` and iterate are NOT reached. If bcheckBlock no longer has the shape the injected observer needs, the check exits 2 (no verdict). Own probes (facts kept by only one if/else branch; impure call keeps receiver facts; one axiom premise weakened in data.go; loop invariant not re-proven on the implicit continue; wrong sign in the -= rewrite) are each caught by the quick tier.",
     "deterministic simulation: seeded public-call histories on persistent receiver state executed by a reference interpreter (model), with the real checker's per-statement fact lists (observer injected at check time) evaluated as invariants at every executed statement",
     "DESIGN.md section 3 D, section 4, section 5 C02, Appendix E"))
 
 CHECKS.append(check(
     "C04", "wsim", "exploration",
-    "One run = one program accepted by the working tree's checker (an operator-stress generator computing with u8, u16, u32 and u64 at once: modular, saturating, bitwise, shift, division and modulus by constants, widening and narrowing conversions, min / max / low_bits / high_bits, compound assignments on narrow types and on array elements, private pure and impure calls, if / else-if / else, counted loops with labelled break and continue including a break out of the enclosing loop; plus the C01 and C02 generators and the hand corpus) and one seeded history of public calls with boundary-biased arguments on a persistent receiver. The history is executed by the reference interpreter and by the C that the working tree's wuffs-c generates from the same source at check time, compiled by clang-14 (-O0 with ASan+UBSan, or -O2, drawn per run) against the base library generated at check time, and driven by a generated main() that performs exactly the recorded calls. Compared: every return value, then the whole receiver state (every scalar field, every array element) through appended getters. Also reported: a sanitizer report in the C for a history the interpreter executed safely, and generated C that clang rejects.",
-    "Sampling of programs x call histories. The interpreter is the reference for 'what the source means' (ideal integers, written from the language documentation; it shares the front end with the compiler) and covers integers, arrays, slices, struct fields, control flow and method calls: statuses, coroutines and suspension, I/O built-ins, iterate, choose, SIMD, io_bind/io_limit and lib/dumbindent formatting are NOT compared (std/ under engine C exercises those paths of cgen only through decoder behaviour). A run in which the interpreter stops with a C01-class violation or leaves its subset, or wuffs-c declines the program, gives no comparison (counted). 'Generated C does not compile' is reported only when clang's first error lies in the generated package file; an error in the harness's main.c is harness trouble (exit 2).",
+    "One run = one program accepted by the working tree's checker (an operator-stress generator computing with u8, u16, u32 and u64 at once: modular, saturating, bitwise, shift, division and modulus by constants, widening and narrowing conversions, min / max / low_bits / high_bits, compound assignments on narrow types and on array elements, private pure and impure calls, if / else-if / else, counted loops with labelled break and continue including a break out of the enclosing loop; plus the C01 and C02 generators, the slice generator, the hand corpus, and the coroutine generator with I/O) and one seeded history of public calls with boundary-biased arguments on a persistent receiver. The history is executed by the reference interpreter and by the C that the working tree's wuffs-c generates from the same source at check time, compiled by clang-14 (-O0 with ASan+UBSan, or -O2, drawn per run) against the base library generated at check time, and driven by a generated main() that performs exactly the recorded calls. For coroutines the simulated caller's actions (bytes delivered per entry, close, drains, changed arguments, interleaved calls) are recorded and repeated by the C driver on real wuffs_base__io_buffer values. Compared: every return value; for every coroutine entry the status, the source read index and the destination write index; every drained destination byte; then the whole receiver state (every scalar field, every array element) through appended getters. Also reported: a sanitizer report in the C for a history the interpreter executed safely, and generated C that clang rejects.",
+    "Sampling of programs x call histories. The interpreter is the reference for 'what the source means' (ideal integers, written from the language documentation; it shares the front end with the compiler) and covers integers, arrays, slices, struct fields, control flow and method calls: `=?`, iterate, choose, SIMD, io_bind/io_limit, token I/O, multi-byte writes and lib/dumbindent formatting are NOT compared (std/ under engine C exercises those paths of cgen only through decoder behaviour). A run in which the interpreter stops with a C01-class violation or leaves its subset, or wuffs-c declines the program, gives no comparison (counted). 'Generated C does not compile' is reported only when clang's first error lies in the generated package file; an error in the harness's main.c is harness trouble (exit 2).",
     "deterministic simulation: one seeded public-call history on persistent receiver state executed by a reference interpreter (model) and by the generated C compiled at check time under sanitizers, differential",
     "DESIGN.md section 3 D, section 5 C04, Appendix E"))
 
